@@ -600,13 +600,17 @@ def literalise(W, steps, result_descs):
 
 
 def fresh_process_results(steps, order, import_first):
-    """Execute the literalised steps in a new interpreter in the given order."""
+    """Execute the literalised steps in a new interpreter in the given order.  An import_first entry "flag:-O"
+    starts that interpreter with assertions stripped."""
+    flags = [f[5:] for f in import_first if f.startswith("flag:")]
+    import_first = [f for f in import_first if not f.startswith("flag:")]
     with tempfile.NamedTemporaryFile("w", suffix=".json", delete=False, dir="/tmp") as fh:
         json.dump({"steps": steps, "order": order, "import_first": import_first}, fh)
         path = fh.name
     try:
         env = dict(os.environ, PYTHONHASHSEED="0", PYTHONDONTWRITEBYTECODE="1")
-        r = subprocess.run([sys.executable, "-m", "vf.props.c20", path], cwd=VERIF_DIR, env=env,
+        env.pop("PYTHONOPTIMIZE", None)
+        r = subprocess.run([sys.executable] + flags + ["-m", "vf.props.c20", path], cwd=VERIF_DIR, env=env,
                            capture_output=True, text=True, timeout=900)
         if r.returncode != 0:
             raise HarnessError(f"fresh interpreter failed: {r.stderr[-1500:]}")
@@ -880,7 +884,8 @@ def make_machine(ctx, W, budget, fresh_every):
                 idx = list(range(n))
                 rev = idx[::-1]
                 perm = sorted(idx, key=lambda q: (q * 7919 + n) % (n + 3))
-                orders = [[rev, []], [perm, ["attr:secp256k1", "py_ecc.bls", "attr:bn128"]]]
+                orders = [[rev, ["flag:-O"] if counter["histories"] % (2 * fresh_every) == 0 else []],
+                          [perm, ["attr:secp256k1", "py_ecc.bls", "attr:bn128"]]]
                 ctx.case = {"steps": self.R.steps, "fresh": orders}
                 check_fresh(ctx, W, self.R, orders)
             if n:
@@ -978,6 +983,11 @@ def t_pinned(ctx):
         {"f": "pop.KeyGen:bytearray", "args": [lit(bytearray(b"seed material")), lit(bytearray(b"info"))]},
         {"f": "hkdf_expand:bytearray", "args": [lit(bytearray(32)), lit(bytearray(b"info")), lit(33)]},
         {"f": "pop.KeyGen:bytearray", "args": [lit(bytearray(b"seed material")), lit(bytearray(b"info"))]},
+        {"f": "pop.SkToPk", "args": [lit(0)]},
+        {"f": "basic.SkToPk", "args": [lit(R_BLS)]},
+        {"f": "aug.KeyValidate", "args": [lit(b"\xc0" + bytes(47))]},
+        {"f": "pop.KeyValidate", "args": [lit(b"\x80" + bytes(46) + b"\x04")]},
+        {"f": "basic.Verify", "args": [lit(b"\xc0" + bytes(47)), lit(b"message"), lit(b"\xc0" + bytes(95))]},
         {"f": f"{OB}.multiply_wide:G1", "args": [{"c": f"py_ecc.{OB}.G1"}, lit((1 << 1100) + 0x1234567)]},
         {"f": "bn128.multiply_wide:G1", "args": [{"c": "py_ecc.bn128.G1"}, lit((1 << 1500) - 1)]},
         {"f": "secp.multiply_wide", "args": [{"c": "py_ecc.secp256k1.secp256k1.G"}, lit(-(1 << 1200) - 5)]},
@@ -985,7 +995,8 @@ def t_pinned(ctx):
     steps = sanitize_steps(W, steps)
     n = len(steps)
     case = {"steps": steps, "fresh": [[list(range(n))[::-1], []], [list(range(0, n, 2)) + list(range(1, n, 2)), ["py_ecc.bn128"]],
-                                       [list(range(n)), ["attr:secp256k1", "attr:bls", "attr:optimized_bn128"]]]}
+                                       [list(range(n)), ["attr:secp256k1", "attr:bls", "attr:optimized_bn128"]],
+                                       [list(range(n)), ["flag:-O"]]]}
     ctx.ev(n)
     o_history(ctx, case)
     for g in ("field", "curve", "pairing", "hash", "codec", "bls", "secp"):
